@@ -113,21 +113,83 @@ def _collect(proto, p, child):
     return got
 
 
+# ------------------------------------------------------------------- fake clock ----
+# The property quantifies over "every way of splitting the stream into reads"; reads that are split are also
+# reads that arrive at different times.  While data_received runs, the functions of the `time` module are
+# replaced by a clock that only the harness advances (by the case's pauses between reads, never inside the
+# whole-stream feed), so a receiver that consults any clock produces different results for different splits
+# and is caught by the chunking-independence oracle - and the check itself never depends on the real clock.
+GAPS = [0.0, 0.05, 0.25, 5.0]
+DEFAULT_GAPS = [0.25, 0.0, 5.0, 0.05]
+DEFAULT_PAUSE = 0.25
+_CLOCK_FLOAT = ("monotonic", "time", "perf_counter")
+_CLOCK_NS = ("monotonic_ns", "time_ns", "perf_counter_ns")
+_REAL_CLOCK = {}
+_MODULE_ALIASES = {}
+
+
+class FakeClock:
+    def __init__(self, start=86400.0 * 365):
+        import time
+        self.now = start
+        self.time = time
+        if not _REAL_CLOCK:
+            for n in _CLOCK_FLOAT + _CLOCK_NS:
+                _REAL_CLOCK[n] = getattr(time, n)
+        S = _lib()
+        if S.__name__ not in _MODULE_ALIASES:
+            # `from time import monotonic` style imports inside the driver module
+            _MODULE_ALIASES[S.__name__] = [(attr, n) for attr, v in vars(S).items()
+                                           for n, real in _REAL_CLOCK.items() if v is real]
+        self.module = S
+        self.aliases = _MODULE_ALIASES[S.__name__]
+        self.fakes = {n: self._float for n in _CLOCK_FLOAT}
+        self.fakes.update({n: self._ns for n in _CLOCK_NS})
+
+    def _float(self):
+        return self.now
+
+    def _ns(self):
+        return int(round(self.now * 1e9))
+
+    def advance(self, dt):
+        self.now += dt
+
+    def call(self, fn, *a):
+        """fn(*a) with the fake clock in place; the real functions are back before this returns or raises."""
+        t = self.time
+        try:
+            for n, f in self.fakes.items():
+                setattr(t, n, f)
+            for attr, n in self.aliases:
+                setattr(self.module, attr, self.fakes[n])
+            return fn(*a)
+        finally:
+            for n, f in _REAL_CLOCK.items():
+                setattr(t, n, f)
+            for attr, n in self.aliases:
+                setattr(self.module, attr, _REAL_CLOCK[n])
+
+
 def _chunks(stream, cuts):
     n = len(stream)
     pts = sorted({c % (n + 1) for c in cuts} | {0, n})
     return [stream[a:b] for a, b in zip(pts, pts[1:]) if b > a]
 
 
-def feed(proto, stream, chunks):
-    """Feed the chunks to a fresh protocol object.  Returns (queues, exc) with exc = None or
-    (offset of the first byte of the failing chunk, exception)."""
+def feed(proto, stream, chunks, gaps=(0.0,)):
+    """Feed the chunks to a fresh protocol object; gaps[k % len] seconds pass (on the fake clock) between
+    chunk k and chunk k+1.  Returns (queues, exc) with exc = None or (offset of the first byte of the failing
+    chunk, exception)."""
     p, child = _new(proto)
+    clock = FakeClock()
     off = 0
     exc = None
-    for ch in chunks:
+    for k, ch in enumerate(chunks):
+        if k:
+            clock.advance(gaps[(k - 1) % len(gaps)])
         try:
-            p.data_received(ch)
+            clock.call(p.data_received, ch)
         except Exception as e:  # noqa: the property forbids any exception here
             if library_frame(e.__traceback__) is None:
                 raise
@@ -196,20 +258,32 @@ def _compare(proto, ref, got, how, stream):
     return out
 
 
-def _judge(proto, stream, cutlists):
+def _gapstr(gaps):
+    return "/".join("%gs" % g for g in gaps)
+
+
+def _judge(proto, stream, cutlists, gaplists=None, pause=None):
     """Violations for one stream (not set aside)."""
+    if gaplists is None:
+        gaplists = [DEFAULT_GAPS[k:] + DEFAULT_GAPS[:k] for k in range(len(cutlists))]
+    if pause is None:
+        pause = DEFAULT_PAUSE
     ref = (RW.luba_deframe if proto == "luba" else RW.sci_deframe)(stream)
     if ref["malformed"]:
         return None, ref
     out = []
-    runs = [("whole", [stream] if stream else [])]
-    runs.append(("byte by byte", [stream[i:i + 1] for i in range(len(stream))]))
+    runs = [("whole", [stream] if stream else [], [0.0])]
+    runs.append(("byte by byte, %gs between reads" % pause, [stream[i:i + 1] for i in range(len(stream))], [pause]))
     for k, cuts in enumerate(cutlists):
-        runs.append(("chunking %d %r" % (k + 1, [len(c) for c in _chunks(stream, cuts)][:20]),
-                     _chunks(stream, cuts)))
+        gaps = list(gaplists[k % len(gaplists)]) if gaplists else [0.0]
+        gaps = gaps or [0.0]
+        runs.append(("chunking %d %r with pauses %s between the reads" % (
+            k + 1, [len(c) for c in _chunks(stream, cuts)][:20], _gapstr(gaps[:8])), _chunks(stream, cuts), gaps))
     results = []
-    for how, chunks in runs:
-        got, exc = feed(proto, stream, chunks)
+    hows = []
+    for how, chunks, gaps in runs:
+        got, exc = feed(proto, stream, chunks, gaps)
+        hows.append(how)
         results.append(got)
         if exc is not None:
             off, e = exc
@@ -219,7 +293,8 @@ def _judge(proto, stream, cutlists):
             continue
         out.extend(_compare(proto, ref, got, how, stream))
     if not out and any(r != results[0] for r in results[1:]):
-        out.append(("C19:%s:chunking-dependent" % proto, "results differ between chunkings"))
+        k = [i for i, r in enumerate(results) if r != results[0]][0]
+        out.append(("C19:%s:chunking-dependent" % proto, "results differ between '%s' and '%s'" % (hows[0], hows[k])))
     # keep one violation per signature
     seen = {}
     for sig, msg in out:
@@ -231,14 +306,15 @@ def run_case(case):
     proto = case["proto"]
     stream = bytes.fromhex(case["stream"])
     cutlists = case.get("cuts", [])
-    vs, ref = _judge(proto, stream, cutlists)
+    gaplists, pause = case.get("gaps"), case.get("pause")
+    vs, ref = _judge(proto, stream, cutlists, gaplists, pause)
     if vs is None:
         return []                   # set aside: malformed-for-type frame (counted by the caller)
     if vs and proto == "luba":
         # root-cause attribution for the buffer overrun: first length byte 21..23 at a length position
         for kind, i, ln in ref["trace"]:
             if kind == "bad-length" and 21 <= ln <= 23 and any("data_received-raised:IndexError" in v[0] for v in vs):
-                pre, _ = _judge(proto, stream[:i], [])
+                pre, _ = _judge(proto, stream[:i], [], None, pause)
                 if not [v for v in pre if v[0] not in CONFIRMED]:
                     return pre + [("C19:luba-length-overrun",
                              "length byte %d at offset %d (frame start %d): the receiver accepts it "
